@@ -401,8 +401,8 @@ Proof. induction a as [|x a IH]; intros [|y b]; simpl; try reflexivity. rewrite 
 
 Lemma ad_kind_cases nt :
   ad_kind nt = ADInt br8 \/ ad_kind nt = ADInt br16 \/ ad_kind nt = ADInt br32 \/ ad_kind nt = ADFloat \/ ad_kind nt = ADBad.
-Proof. unfold ad_kind. destruct (zmem nt ad8_types); auto. destruct (zmem nt ad16_types); auto.
-  destruct (zmem nt ad32_types); auto. destruct (_ || _); auto. Qed.
+Proof. unfold ad_kind. cbv zeta. destruct (zmem _ ad8_types); auto. destruct (zmem _ ad16_types); auto.
+  destruct (zmem _ ad32_types); auto. destruct (_ || _); auto. destruct (float_own_width _); auto. Qed.
 
 Lemma flagged_sym8 x y : flagged br8 x y = flagged br8 y x.
 Proof.
@@ -1040,4 +1040,61 @@ Proof.
     - intros a Ha. exists a. split; [|apply attr_agree_refl]. apply find_attr_self; [assumption|]. apply attr_in_In, A, Ha.
     - intros b Hb. rewrite (find_attr_self (f_gattrs f1) b N1) by (apply attr_in_In, B, Hb). discriminate. }
   split; [assumption|]. unfold hdiff_exit_m, spec_exit. rewrite E, S. reflexivity.
+Qed.
+
+(* ------------------------------------------------------------------------------------------ *)
+(** * Number-type flavours; the floating-point branches compute the difference in the element's own width *)
+
+Lemma ad_kind_flavour_lemma nt : ad_kind nt = ad_kind (Z.land nt DFNT_MASK).
+Proof.
+  unfold ad_kind, ad_type_key, DFNT_MASK. rewrite <- Z.land_assoc. change (Z.land 4095 4095) with 4095. reflexivity.
+Qed.
+
+Lemma hdp_routine_flavour_lemma : forall base flag, In base [20; 21; 22; 23; 24; 25] -> In flag [0; DFNT_NATIVE; DFNT_LITEND] ->
+  hdp_routine (Z.lor base flag) = hdp_routine base /\ hdp_routine base <> None.
+Proof.
+  intros base flag Hb Hf. simpl in Hb, Hf.
+  repeat (destruct Hb as [<-|Hb]; [repeat (destruct Hf as [<-|Hf]; [split; [vm_compute; reflexivity | vm_compute; discriminate]|]); contradiction|]).
+  contradiction.
+Qed.
+
+Section FloatFacts.
+  (* any value domain with subtraction, absolute value, zero, per-format rounding and a "representable in the
+     w-bit format" predicate satisfying the IEEE-754 facts used (gradual underflow: the rounded difference of two
+     numbers of one format is zero only if they are equal) *)
+  Variable V : Type.
+  Variables (vsub : V -> V -> V) (vabs : V -> V) (vzero : V) (rnd : Z -> V -> V) (F : Z -> V -> Prop).
+  Hypothesis rnd_sub_zero : forall w a b, F w a -> F w b -> (rnd w (vsub a b) = vzero <-> a = b).
+  Hypothesis abs_zero : forall x, vabs x = vzero <-> x = vzero.
+  Hypothesis rnd_id : forall w x, F w x -> rnd w x = x.
+  Hypothesis F_rnd : forall w x, F w (rnd w x).
+  Hypothesis F_abs : forall w x, F w x -> F w (vabs x).
+
+  Lemma float32_own_width_lemma a b : F adf32_elt_bits a -> F adf32_elt_bits b ->
+    (feval V vsub vabs rnd adf32_diff a b = vzero <-> a = b).
+  Proof.
+    intros Ha Hb. unfold adf32_diff, adf32_elt_bits in *. cbn [feval].
+    rewrite rnd_id by (apply F_abs, F_rnd). rewrite abs_zero. apply rnd_sub_zero; assumption.
+  Qed.
+
+  Lemma float64_own_width_lemma a b : F adf64_elt_bits a -> F adf64_elt_bits b ->
+    (feval V vsub vabs rnd adf64_diff a b = vzero <-> a = b).
+  Proof.
+    intros Ha Hb. unfold adf64_diff, adf64_elt_bits in *. cbn [feval].
+    rewrite abs_zero. apply rnd_sub_zero; assumption.
+  Qed.
+End FloatFacts.
+
+Lemma float_kinds_lemma : ad_kind DFNT_FLOAT32 = ADFloat /\ ad_kind DFNT_FLOAT64 = ADFloat /\
+  ad_kind (Z.lor DFNT_LITEND DFNT_FLOAT64) = ADFloat.
+Proof. repeat split; vm_compute; reflexivity. Qed.
+
+Lemma ad_float_refines_spec_lemma : forall nt a b m, ad_kind nt = ADFloat ->
+  array_diff_m nt (opts0 m) a b = (spec_count a b, spec_diff_positions 0 a b).
+Proof.
+  intros nt a b m K. unfold array_diff_m. rewrite K. unfold spec_count.
+  assert (G : forall a b i n pr, ad_float i a b n pr = (n + Z.of_nat (length (spec_diff_positions i a b)), rev pr ++ spec_diff_positions i a b)).
+  { clear. induction a as [|x a IH]; intros [|y b] i n pr; cbn [ad_float spec_diff_positions]; try (rewrite app_nil_r; f_equal; simpl; lia).
+    destruct (x =? y); rewrite IH; cbn [length rev]; [reflexivity|]. rewrite <- app_assoc. simpl. f_equal. lia. }
+  rewrite G. reflexivity.
 Qed.
